@@ -3,7 +3,7 @@ import json, os
 import fw
 
 RULE = ("generated condition trees (depth <= 4, #elif chains, #else, empty arms) whose arms hold data, labels, constants (several arms "
-        "may define the same name), references and further #if chains; conditions over boolean and integer constants declared "
+        "may define the same name), references and further #if chains; a family whose arms declare *local* labels and constants under a label that stands before the conditional and refer to them by their full names; conditions over boolean and integer constants declared "
         "before, after or inside other arms, including ill-typed (integer) conditions, address-dependent and undeclared names; x "
         "assignments of defines (booleans, integers, negative, overriding address-valued constants, hierarchical names, names declared "
         "only in dead arms or nowhere). The expected world is computed by a direct interpreter written from the statement (first true "
@@ -100,8 +100,56 @@ class G:
                 els.append(("const", name, ("lit", 0)))
         return ("if", arms, els)
 
+    # ---- local symbols inside arms (parent label outside the conditional, no global declared in any arm)
+    def lbody(self, depth, parent, declared):
+        rng = self.rng
+        out = []
+        for _ in range(rng.randrange(1, 4)):
+            r = rng.random()
+            if r < 0.3:
+                out.append(("d8", self.nid)); self.nid += 1
+            elif r < 0.5:
+                self.nlabel += 1
+                nm = "%s.x%d" % (parent, self.nlabel)
+                out.append(("label", nm)); declared.append(nm)
+            elif r < 0.65:
+                self.nconst += 1
+                nm = "%s.k%d" % (parent, self.nconst)
+                out.append(("const", nm, ("lit", rng.randrange(0, 100)))); declared.append(nm)
+            elif r < 0.8 and declared:
+                out.append(("emit", rng.choice(declared)))
+            elif depth < 3:
+                out.append(self.lchain(depth + 1, parent, declared))
+            else:
+                out.append(("d8", self.nid)); self.nid += 1
+        return out
+
+    def lchain(self, depth, parent, declared):
+        rng = self.rng
+        arms = []
+        for _ in range(rng.choice([1, 1, 2, 3])):
+            arms.append((self.expr_bool(), self.lbody(depth, parent, list(declared))))
+        els = self.lbody(depth, parent, list(declared)) if rng.random() < 0.5 else None
+        return ("if", arms, els)
+
+    def program_local(self):
+        rng = self.rng
+        top = [self.new_const("bool"), self.new_const("bool"), self.new_const("int")]
+        for i in range(rng.randrange(1, 4)):
+            parent = "P%d" % i
+            top.append(("label", parent))
+            top.append(("d8", self.nid)); self.nid += 1
+            for _ in range(rng.randrange(1, 3)):
+                top.append(self.lchain(1, parent, []))
+                if rng.random() < 0.5:
+                    top.append(("d8", self.nid)); self.nid += 1
+        top.append(("d8", 255))
+        return top
+
     def program(self):
         rng = self.rng
+        if rng.random() < 0.25:
+            return self.program_local()
         top = [self.new_const("bool"), self.new_const("int")]
         top.append(("const", "addrconst", ("here",)))
         for _ in range(rng.randrange(1, 4)):
@@ -136,9 +184,9 @@ def render(nodes, ind=0):
         if k == "d8":
             out.append(pad + "#d8 %d" % n[1])
         elif k == "const":
-            out.append(pad + "%s = %s" % (n[1], rexpr(n[2])))
+            out.append(pad + "%s = %s" % ("." + n[1].split(".", 1)[1] if "." in n[1] else n[1], rexpr(n[2])))
         elif k == "label":
-            out.append(pad + n[1] + ":")
+            out.append(pad + ("." + n[1].split(".", 1)[1] if "." in n[1] else n[1]) + ":")
         elif k == "emit":
             out.append(pad + "#d8 %s" % n[1])
         else:
